@@ -113,6 +113,9 @@ type State struct {
 	initMode bool
 	threads  []*Thread
 	obs      []*Term
+	model    *Model
+	aux      []*Term
+	nfresh   int
 }
 
 func (st *State) clone() *State {
@@ -132,6 +135,9 @@ func (st *State) clone() *State {
 	}
 	n.threads = append([]*Thread(nil), st.threads...)
 	n.obs = append([]*Term(nil), st.obs...)
+	n.model = st.model
+	n.aux = append([]*Term(nil), st.aux...)
+	n.nfresh = st.nfresh
 	if st.ghost != nil {
 		n.ghost = map[string]int{}
 		for k, v := range st.ghost {
